@@ -130,7 +130,8 @@ SetOf(q) == { q[i] : i \in 1..Len(q) }
 HookLines(lines, h) == { IF ln.addr = h.ren_from THEN [ln EXCEPT !.addr = h.ren_to]
                          ELSE IF ln.addr = h.inc_addr THEN [ln EXCEPT !.vals = << ln.vals[1] + h.inc_by >>] ELSE ln : ln \in { m \in lines : m.addr \notin SetOf(h.discard) } }
 HookFails(ev, st) ==
-  LET lines == SaveLines(st)  h == ev.hook  aborts == h.abort # "" /\ \E ln \in lines : ln.addr = h.abort IN
+  \* (a line whose port does not exist any more - its allocating toggle was discarded - makes the load fail like an abort does)
+  LET lines == SaveLines(st)  h == ev.hook  aborts == (h.abort # "" /\ \E ln \in lines : ln.addr = h.abort) \/ ~ AllFound(HookLines(lines, h)) IN
   {k \in {"c12:hook_result", "c12:hook_loaded_state", "c12:hook_called_per_line", "c12:hook_versions"} :
    ~ CASE k = "c12:hook_result" -> IF aborts THEN ev.ret < 0 ELSE ev.ret = Cardinality(lines)
        [] k = "c12:hook_loaded_state" -> aborts \/ ev.loaded = LoadLines(HookLines(lines, h))
@@ -138,7 +139,7 @@ HookFails(ev, st) ==
        \* the hook is told the versions the FILE was written with (its two header lines) and the current ones (library 0.3.1, application 1.2.3)
        [] k = "c12:hook_versions" -> ev.hook_calls = 0 \/ LET fv == IF "file_vers" \in DOMAIN ev THEN ev.file_vers ELSE <<0, 3, 1, 1, 2, 3>> IN
                                          ev.vers = SubSeq(fv, 1, 3) \o <<0, 3, 1>> \o SubSeq(fv, 4, 6) \o <<1, 2, 3>> }
-RawFails(ev) == {k \in {"c12:bad_file_accepted"} : ~ (ev.ret < 0) }
+RawFails(ev) == {k \in {"c12:bad_file_accepted"} : ~ (ev.ret < 0 \/ ("any_result" \in DOMAIN ev /\ ev.any_result)) }
 Mismatch(ev, before, after) ==
   CASE ev.op = "set" -> SetFails(ev, before, after)
     [] ev.op = "get" -> GetFails(ev, before)
